@@ -33,10 +33,54 @@ func verifProtocolFailure(ep *verifEndpoint, perr error) bool {
 //
 //	state 0: fresh; 1: inside a fragmented text message; 2: inside a fragmented binary message
 func verifC13Frame(state int, compression bool, client bool) {
+	verifC13FrameAfter(state, compression, client, -1, false)
+}
+
+// verifC13FrameAfter: as verifC13Frame, but (firstOp >= 0) the fragmentation
+// state is whatever a concrete first frame (opcode firstOp, FIN firstFin,
+// payload "a") leaves behind — including states no well-behaved peer creates
+// (a non-final continuation with nothing to continue).
+func verifC13FrameAfter(state int, compression bool, client bool, firstOp int, firstFin bool) {
 	ep := verifNewEndpoint(client, compression, 0, nil)
 	c := ep.c
 	var prior []byte
-	if state != 0 {
+	strayOpen := false
+	if firstOp >= 0 {
+		b0 := byte(firstOp)
+		if firstFin {
+			b0 |= 0x80
+		}
+		err := c.Parse([]byte{b0, 1, 'a'})
+		failed0 := verifProtocolFailure(ep, err)
+		isCtl := firstOp >= 8
+		switch {
+		case isCtl && !firstFin, firstOp == 0 && firstFin:
+			verifAssertD(failed0, "rejects-what-rfc-forbids", "first-frame")
+			return
+		case firstOp == 8:
+			return // nothing is demanded after a close frame
+		case firstOp == 0 && !firstFin:
+			// a fragmented message that never started: must be failed at the
+			// latest when it ends
+			if failed0 {
+				return
+			}
+			strayOpen = true
+			state = 3
+			prior = []byte{'a'}
+		case firstOp == 1 && !firstFin:
+			state, prior = 1, []byte{'a'}
+		case firstOp == 2 && !firstFin:
+			state, prior = 2, []byte{'a'}
+		default:
+			verifAssertD(!failed0, "accepts-what-rfc-allows", "first-frame")
+			if failed0 {
+				return
+			}
+			state = 0
+		}
+		ep.msgs = nil
+	} else if state != 0 {
 		op := byte(TextMessage)
 		if state == 2 {
 			op = byte(BinaryMessage)
@@ -100,6 +144,15 @@ func verifC13Frame(state int, compression bool, client bool) {
 	nwBefore := len(ep.fake.writes)
 	err := c.Parse(stream)
 	failed := verifProtocolFailure(ep, err)
+	if strayOpen {
+		// whatever ends or continues the never-started message must not deliver it
+		endsIt := verifAnd(b0&0x80 != 0, b0&0x0f == 0)
+		if complete {
+			verifAssertD(verifImplies(endsIt, failed), "rejects-what-rfc-forbids", "continuation-without-start/ended")
+			verifAssertD(len(ep.msgs) == 0, "no-delivery-of-offending-frame", "continuation-without-start")
+		}
+		return
+	}
 
 	// ---- reference acceptor (RFC 6455 5.2, 5.4, 5.5, 7.4.1, 8.1), one rule at a time
 	isCtl := op >= 8
@@ -237,3 +290,12 @@ func verifHarness_C13_close_codes() {
 	verifAssert(false, "witness")
 }
 
+
+
+func verifHarness_C13_second_frame_after_any_first_T() {
+	ops := []int{0, 1, 2, 8, 9, 10}
+	op := ops[verifChoose("first_op", len(ops))]
+	fin := verifChoose("first_fin", 2) == 1
+	verifC13FrameAfter(0, false, false, op, fin)
+	verifAssert(false, "witness")
+}
